@@ -86,6 +86,9 @@ func hopByHopHeaders(respHeader http.Header) map[string]struct{} {
 func removeHopByHopHeaders(resp *http.Response) {
 	for hdr := range hopByHopHeaders(resp.Header) {
 		delete(resp.Header, hdr)
+		// "header or trailer fields" (RFC 9110 §7.6.1): a nominated field that arrives
+		// in the trailer section is hop-by-hop all the same.
+		delete(resp.Trailer, hdr)
 	}
 }
 
